@@ -511,6 +511,22 @@ func sweep(yield func(dCase) bool) {
 			}
 		}
 	}
+	// ... nor on the time of day it is asked at: zones whose clock falls back a few minutes from now / fell back a few minutes ago,
+	// and the readings of the current minutes in them (the repeated hour is now)
+	if ev.Shard() == 2%ev.Shards() {
+		for _, minutes := range []string{"-50", "-20", "-5", "5", "20", "50"} {
+			z := "Synthetic/FallsBackIn/" + minutes
+			loc := zones.Loc(z)
+			for delta := -150; delta <= 150; delta += 30 {
+				for _, hours := range []int{0, 1, -1} {
+					w := time.Now().Add(time.Duration(delta)*time.Second + time.Duration(hours)*time.Hour).In(loc)
+					if !yield(dCase{Zone: z, Kind: "datetime", Y: w.Year(), M: int(w.Month()), D: w.Day(), H: w.Hour(), Mi: w.Minute(), S: w.Second()}) {
+						return
+					}
+				}
+			}
+		}
+	}
 	boundaries := []spec.Civil{{Y: 1, M: 1, D: 2}, {Y: 1, M: 12, D: 31}, {Y: 1582, M: 10, D: 10}, {Y: 1899, M: 12, D: 31}, {Y: 1900, M: 2, D: 28}, {Y: 1900, M: 3, D: 1}, {Y: 1970, M: 1, D: 1}, {Y: 1999, M: 12, D: 31},
 		{Y: 2000, M: 1, D: 1}, {Y: 2000, M: 2, D: 29}, {Y: 2024, M: 2, D: 29}, {Y: 2024, M: 3, D: 31}, {Y: 2024, M: 10, D: 27}, {Y: 2038, M: 1, D: 19}, {Y: 2100, M: 2, D: 28}, {Y: 9999, M: 12, D: 31}}
 	for _, z := range myZones() {
